@@ -15,12 +15,14 @@ structure DM (g' g : FileDesc) : Prop where
   prio : g'.prio = g.prio
   start : g'.info.startTime = g.info.startTime
   pub : g.published = true → g'.published = true
+  faults : g'.faults = g.faults
 
-theorem DM.refl (g : FileDesc) : DM g g := ⟨Nat.le_refl _, rfl, rfl, rfl, rfl, rfl, rfl, id⟩
+theorem DM.refl (g : FileDesc) : DM g g := ⟨Nat.le_refl _, rfl, rfl, rfl, rfl, rfl, rfl, id, rfl⟩
 
 theorem DM.trans {g2 g1 g0 : FileDesc} (h1 : DM g2 g1) (h0 : DM g1 g0) : DM g2 g0 :=
   ⟨Nat.le_trans h0.total h1.total, h1.target.trans h0.target, h1.nSym.trans h0.nSym, h1.carousel.trans h0.carousel,
-   h1.maxCount.trans h0.maxCount, h1.prio.trans h0.prio, h1.start.trans h0.start, fun h => h1.pub (h0.pub h)⟩
+   h1.maxCount.trans h0.maxCount, h1.prio.trans h0.prio, h1.start.trans h0.start, fun h => h1.pub (h0.pub h),
+   h1.faults.trans h0.faults⟩
 
 structure Mono (s s' : State) : Prop where
   fwd : ∀ k g, getF s.objs k = some g → ∃ g', getF s'.objs k = some g' ∧ DM g' g
@@ -46,7 +48,7 @@ theorem Mono.of_same {s s' : State} (ho : s'.objs = s.objs) (hc : s'.cfg = s.cfg
 
 theorem pubMark_dm (fs : List Nat) (g : FileDesc) : DM (pubMark fs g) g := by
   unfold pubMark; split
-  · exact ⟨Nat.le_refl _, rfl, rfl, rfl, rfl, rfl, rfl, fun _ => rfl⟩
+  · exact ⟨Nat.le_refl _, rfl, rfl, rfl, rfl, rfl, rfl, fun _ => rfl, rfl⟩
   · exact DM.refl g
 
 theorem Mono.publish (s : State) (now : Nat) : Mono s (publish s now) where
@@ -84,15 +86,15 @@ theorem Mono.upd {s s' : State} (k : Nat) (gf : FileDesc → FileDesc) (hg : ∀
       exact ⟨g', hgu, DM.refl g'⟩
 
 theorem dm_transferInit (now tk : Nat) (x : FileDesc) : (transferInit x now tk).key = x.key ∧ DM (transferInit x now tk) x :=
-  ⟨rfl, Nat.le_refl _, rfl, rfl, rfl, rfl, rfl, rfl, id⟩
+  ⟨rfl, Nat.le_refl _, rfl, rfl, rfl, rfl, rfl, rfl, id, rfl⟩
 
 theorem dm_tickInfo (x : FileDesc) : (tickInfo x).key = x.key ∧ DM (tickInfo x) x := by
-  refine ⟨rfl, ?_, rfl, rfl, rfl, rfl, rfl, ?_, id⟩
+  refine ⟨rfl, ?_, rfl, rfl, rfl, rfl, rfl, ?_, id, rfl⟩
   · rw [(tickInfo_fields x).2.1]; exact Nat.le_refl _
   · unfold tickInfo FileDesc.updInfo; simp only []; split <;> rfl
 
 theorem dm_done (now : Nat) (x : FileDesc) : (transferDoneInfo x now).key = x.key ∧ DM (transferDoneInfo x now) x :=
-  ⟨rfl, Nat.le_succ _, rfl, rfl, rfl, rfl, rfl, rfl, id⟩
+  ⟨rfl, Nat.le_succ _, rfl, rfl, rfl, rfl, rfl, rfl, id, rfl⟩
 
 /-- `Mono s0 ·` as an invariant of the frame -/
 def MonoInv (s0 : State) : State → Held → Prop := fun s _ => Mono s0 s
@@ -116,7 +118,7 @@ theorem MonoInv.closed (s0 : State) : Closed0 (MonoInv s0) where
     · exact Mono.trans h h1
   pkt := fun s L prio c now _ idx b _ _ h _ _ _ _ _ =>
     Mono.trans h (Mono.upd (s' := pktStep s prio c.key now idx b) c.key tickInfo dm_tickInfo rfl rfl)
-  done := fun s L _ c now _ _ _ h _ _ _ _ _ =>
+  done := fun s L _ c now _ _ _ h _ _ _ =>
     Mono.trans h (Mono.upd c.key (fun f => transferDoneInfo f now) (dm_done now)
       (transferDoneFile_objs s c.key now) (transferDoneFile_cfg s c.key now))
   fdtPkt := fun s L c f now idx b e _ h _ _ _ _ _ =>
@@ -129,5 +131,89 @@ theorem MonoInv.closed (s0 : State) : Closed0 (MonoInv s0) where
 theorem mono_read (s : State) (now : Nat) (ticks : List (Nat × Nat)) (hq : s.quiet = false) :
     Mono s (read s now ticks).1 :=
   (read_inv (MonoInv.closed s) s now ticks (Mono.refl s) hq).1
+
+/-! ### histories over buffer sources: no descriptor has a fault schedule -/
+
+/-- no `add_object` of the history carries a fault schedule (all sources are buffers / never fail) -/
+def NoFaultOps (ops : List Op) : Prop := ∀ a, Op.add a ∈ ops → a.faults = []
+
+/-- every descriptor of the state is fault-free (getF form) -/
+def FaultFree (s : State) : Prop := ∀ k g, getF s.objs k = some g → g.faults = []
+
+theorem faultfree_step (s : State) (op : Op) (hq : s.quiet = false) (h : FaultFree s)
+    (hop : ∀ a, op = .add a → a.faults = []) : FaultFree (step s op) := by
+  cases op with
+  | add a =>
+    show FaultFree (addObject s a).1
+    unfold addObject; simp only []
+    split
+    · exact h
+    · split
+      · exact h
+      · intro k g hg
+        have hg' : getF (s.objs ++ [_]) k = some g := hg
+        cases h0 : getF s.objs k with
+        | some g0 => rw [getF_append_some h0] at hg'; cases hg'; exact h k _ h0
+        | none =>
+          rw [getF_append_none h0] at hg'
+          have hm := getF_mem hg'
+          simp only [List.mem_singleton] at hm
+          subst hm; exact hop a rfl
+  | publish now =>
+    show FaultFree (publishOp s now)
+    unfold publishOp
+    refine publishTry_elim (P := FaultFree) _ now ?_ h
+    intro k g hg
+    rw [publish_getF_objs] at hg
+    cases h0 : getF s.objs k with
+    | none =>
+      have : getF (emit s (Ev.opPublish now)).objs k = none := h0
+      rw [this] at hg; cases hg
+    | some g0 =>
+      have : getF (emit s (Ev.opPublish now)).objs k = some g0 := h0
+      rw [this] at hg; simp only [Option.map_some, Option.some.injEq] at hg
+      rw [← hg, (pubMark_dm _ g0).faults]; exact h k g0 h0
+  | remove t =>
+    show FaultFree (removeObject s t).1
+    unfold removeObject; split <;> exact h
+  | trigger t ts =>
+    show FaultFree (triggerTransferAt s t ts).1
+    unfold triggerTransferAt; split
+    · exact h
+    · split
+      · exact h
+      · intro k g hg
+        have hg' : getF (updF s.objs t (fun f => resetLastTransfer f ts)) k = some g := hg
+        rw [getF_updF s.objs t k (fun f => resetLastTransfer f ts) (fun _ => rfl)] at hg'
+        by_cases hk : k = t
+        · rw [if_pos hk] at hg'
+          cases h0 : getF s.objs k with
+          | none => rw [h0] at hg'; cases hg'
+          | some g0 =>
+            rw [h0] at hg'; simp only [Option.map_some, Option.some.injEq] at hg'
+            rw [← hg']; exact h k g0 h0
+        · rw [if_neg hk] at hg'; exact h k g hg'
+  | setComplete => exact h
+  | read now ticks =>
+    show FaultFree (read s now ticks).1
+    intro k g hg
+    obtain ⟨g0, hg0, d⟩ := (mono_read s now ticks hq).bwd k g hg
+    rw [d.faults]; exact h k g0 hg0
+
+/-- after every history whose sources never fail -/
+theorem faultfree_run (cfg : Cfg) (tbl : List Nat) (ops : List Op) (hnf : NoFaultOps ops) :
+    FaultFree (run (init cfg tbl) ops) := by
+  have : ∀ (ops : List Op) (s : State), Wf s (heldOf s) → s.quiet = false → FaultFree s → NoFaultOps ops →
+      FaultFree (run s ops) := by
+    intro ops
+    induction ops with
+    | nil => intro s _ _ h _; exact h
+    | cons op rest ih =>
+      intro s hw hq h hno
+      have h1 := faultfree_step s op hq h (fun a e => hno a (by rw [e]; exact List.mem_cons_self))
+      have hw1 := step_inv Wf.closed Wf.closedOps s op hw hq
+      exact ih (step s op) hw1.1 hw1.2 h1 (fun a ha => hno a (List.mem_cons_of_mem _ ha))
+  exact this ops (init cfg tbl) (by rw [heldOf_init]; exact Wf.init cfg tbl) rfl
+    (by intro k g hg; simp [init, getF] at hg) hnf
 
 end Flute.Sched
